@@ -1,0 +1,64 @@
+//! Direct entry to the round-state opcode handlers (`RTG` … `ROFF`, `SROUND`,
+//! `S45ROUND`, `ROUND[]`) on a bare engine, for the out-of-tree verification
+//! harness.
+//!
+//! Compiled only with `--cfg googlefonts_fontations_verif`; adds no behaviour.
+use super::{
+    super::{
+        cow_slice::CowSlice,
+        definition::{DefinitionMap, DefinitionState},
+        graphics::GraphicsState,
+        program::{Program, ProgramState},
+        value_stack::ValueStack,
+    },
+    Engine, LoopBudget,
+};
+
+/// Executes the handler of the round-state opcode `state_opcode` (0x18 RTG,
+/// 0x19 RTHG, 0x3D RTDG, 0x7D RDTG, 0x7C RUTG, 0x7A ROFF, 0x76 SROUND,
+/// 0x77 S45ROUND; the last two pop `selector`) and then `ROUND[]` on
+/// `distance`, on an engine with empty zones, programs and tables.
+///
+/// Returns `(period, phase, threshold, rounded)`, or `None` for another
+/// opcode or a handler error.
+pub fn round_ops(state_opcode: u8, selector: i32, distance: i32) -> Option<(i32, i32, i32, i32)> {
+    let mut stack = [0i32; 4];
+    let mut engine = Engine {
+        program: ProgramState::new(&[], &[], &[], Program::Font),
+        graphics: GraphicsState::default(),
+        definitions: DefinitionState::new(DefinitionMap::Mut(&mut []), DefinitionMap::Mut(&mut [])),
+        cvt: CowSlice::new_mut(&mut []).into(),
+        storage: CowSlice::new_mut(&mut []).into(),
+        value_stack: ValueStack::new(&mut stack, false),
+        loop_budget: LoopBudget {
+            limit: 0,
+            backward_jumps: 0,
+            loop_calls: 0,
+        },
+        axis_count: 0,
+        coords: &[],
+    };
+    match state_opcode {
+        0x18 => engine.op_rtg(),
+        0x19 => engine.op_rthg(),
+        0x3D => engine.op_rtdg(),
+        0x7D => engine.op_rdtg(),
+        0x7C => engine.op_rutg(),
+        0x7A => engine.op_roff(),
+        0x76 => {
+            engine.value_stack.push(selector).ok()?;
+            engine.op_sround()
+        }
+        0x77 => {
+            engine.value_stack.push(selector).ok()?;
+            engine.op_s45round()
+        }
+        _ => return None,
+    }
+    .ok()?;
+    engine.value_stack.push(distance).ok()?;
+    engine.op_round().ok()?;
+    let rounded = engine.value_stack.pop().ok()?;
+    let state = engine.graphics.round_state;
+    Some((state.period, state.phase, state.threshold, rounded))
+}
